@@ -172,8 +172,13 @@ def main(argv=None):
               assumptions=assumptions, wall_s=round(time.time() - t0, 2), violations=len(new_v))
     os.makedirs(os.path.join(VERIF, "evidence"), exist_ok=True)
     evp = os.path.join(VERIF, "evidence", f"{pid}.json")
-    with open(evp + ".tmp", "w") as f: json.dump(ev, f, indent=1)
-    os.replace(evp + ".tmp", evp)
+    if a.only or os.environ.get("LUNA_VERIF_REPO", "/repo") != "/repo":
+        # partial (debugging) runs and runs against a scratch copy of the repository (seeded changes) must not
+        # overwrite the evidence of the real tree
+        evp = os.path.join("/tmp", f"evidence-{pid}-{os.getpid()}.json")
+    tmp = f"{evp}.{os.getpid()}.tmp"
+    with open(tmp, "w") as f: json.dump(ev, f, indent=1)
+    os.replace(tmp, evp)
     # ---- verdict
     cv = ev["coverage"]
     print(f"[{pid}] tier={a.tier} seed={seed} configs={len(results)} states={cv['states']} transitions={cv['transitions']} "
